@@ -538,6 +538,46 @@ func c12IDs(w *core.W, j int) {
 			}
 		}
 	}
+	// one datagram Conn used for two exchanges: the first advertises a large EDNS0 buffer and gets a
+	// large reply; a late duplicate of that reply arrives during the second exchange (a plain query)
+	// and must be skipped like any other reply with a foreign ID
+	if j%5 == 1 {
+		q1 := new(dns.Msg)
+		q1.SetQuestion(fmt.Sprintf("big%d.example.", j), dns.TypeTXT)
+		q1.Id = uint16(5000 + j)
+		q1.SetEdns0(4096, false)
+		big := new(dns.Msg)
+		big.SetReply(q1)
+		for i := 0; i < 4; i++ {
+			big.Answer = append(big.Answer, &dns.TXT{Hdr: dns.RR_Header{Name: q1.Question[0].Name, Rrtype: dns.TypeTXT, Class: 1, Ttl: 1}, Txt: []string{strings.Repeat("x", 200+r.IntN(50))}})
+		}
+		bigWire, _ := big.Pack()
+		q2 := new(dns.Msg)
+		q2.SetQuestion(fmt.Sprintf("small%d.example.", j), dns.TypeA)
+		q2.Id = q1.Id + 1
+		small := new(dns.Msg)
+		small.SetReply(q2)
+		smallWire, _ := small.Pack()
+		sc := netsim.NewScripted([][]byte{bigWire, bigWire, smallWire})
+		co := &dns.Conn{Conn: sc}
+		c2 := &dns.Client{Timeout: 300 * time.Millisecond}
+		w.Eval(1)
+		w.Count("reused_datagram_conns", 1)
+		var r1, r2 *dns.Msg
+		var e1, e2 error
+		if within(c12Watch, func() {
+			r1, _, e1 = c2.ExchangeWithConn(q1, co)
+			r2, _, e2 = c2.ExchangeWithConn(q2, co)
+		}) {
+			if e1 != nil || r1 == nil || len(r1.Answer) != 4 {
+				w.Violation("C12/datagram-large-reply-lost", fmt.Sprintf("a %d-octet reply to a query advertising 4096 octets: err=%v", len(bigWire), e1), nil)
+			} else if e2 != nil || r2 == nil || r2.Id != q2.Id {
+				w.Violation("C12/datagram-stale-large-reply-not-skipped", fmt.Sprintf("second exchange on the same Conn: a late %d-octet duplicate of the first reply precedes the real reply; err=%v", len(bigWire), e2), nil)
+			}
+		} else {
+			w.Violation("C12/datagram-exchange-hang", "two exchanges on one scripted datagram Conn did not return", nil)
+		}
+	}
 	// datagrams: 0..5 stale/duplicate/foreign replies before the real one
 	n := r.IntN(6)
 	var script [][]byte
